@@ -478,6 +478,12 @@ func (w *responseWriter) WriteMsg(m *dns.Msg) error {
 			}
 			return w.ResponseWriter.WriteMsg(filtered)
 		}
+		if stripped > 0 {
+			// Every AAAA was excluded. If synthesis below produces
+			// nothing, this stripped copy is what the client gets,
+			// and the validator's AD bit does not cover it either.
+			filtered.AuthenticatedData = false
+		}
 		m = filtered
 	}
 
